@@ -8002,9 +8002,7 @@ fn compare_wire_values(a: Option<&WireValue>, b: Option<&WireValue>) -> std::cmp
         (Some(va), Some(vb)) => match (va, vb) {
             (WireValue::Int64(a), WireValue::Int64(b)) => a.cmp(b),
             (WireValue::Int32(a), WireValue::Int32(b)) => a.cmp(b),
-            (WireValue::Float64(a), WireValue::Float64(b)) => {
-                a.partial_cmp(b).unwrap_or(std::cmp::Ordering::Equal)
-            }
+            (WireValue::Float64(a), WireValue::Float64(b)) => compare_f64_total(*a, *b),
             (WireValue::String(a), WireValue::String(b)) => a.cmp(b),
             (WireValue::Bool(a), WireValue::Bool(b)) => a.cmp(b),
             (WireValue::Timestamp(a), WireValue::Timestamp(b)) => a.cmp(b),
@@ -8012,15 +8010,37 @@ fn compare_wire_values(a: Option<&WireValue>, b: Option<&WireValue>) -> std::cmp
             (WireValue::Null, _) => std::cmp::Ordering::Less,
             (_, WireValue::Null) => std::cmp::Ordering::Greater,
             // Cross-type numeric comparison
-            (WireValue::Int64(a), WireValue::Float64(b)) => (*a as f64)
-                .partial_cmp(b)
-                .unwrap_or(std::cmp::Ordering::Equal),
-            (WireValue::Float64(a), WireValue::Int64(b)) => a
-                .partial_cmp(&(*b as f64))
-                .unwrap_or(std::cmp::Ordering::Equal),
+            (WireValue::Int64(a), WireValue::Float64(b)) => compare_i64_f64(*a, *b),
+            (WireValue::Float64(a), WireValue::Int64(b)) => compare_i64_f64(*b, *a).reverse(),
             // Cross-type: use type discriminant for stable ordering
             _ => wire_value_type_rank(va).cmp(&wire_value_type_rank(vb)),
         },
+    }
+}
+
+/// Order floats for sorting: numeric order (-0.0 == 0.0), NaN after every number.
+/// Unlike `partial_cmp().unwrap_or(Equal)` this is transitive, as `sort_by` requires.
+fn compare_f64_total(a: f64, b: f64) -> std::cmp::Ordering {
+    match a.partial_cmp(&b) {
+        Some(ord) => ord,
+        None => a.is_nan().cmp(&b.is_nan()),
+    }
+}
+
+/// Compare an integer with a float exactly (the integer is not rounded to f64, so
+/// the order stays transitive for |n| > 2^53); NaN sorts after every number.
+fn compare_i64_f64(a: i64, b: f64) -> std::cmp::Ordering {
+    use std::cmp::Ordering;
+    if b.is_nan() || b >= 9_223_372_036_854_775_808.0 {
+        return Ordering::Less;
+    }
+    if b < -9_223_372_036_854_775_808.0 {
+        return Ordering::Greater;
+    }
+    let whole = b.trunc();
+    match a.cmp(&(whole as i64)) {
+        Ordering::Equal => 0.0_f64.partial_cmp(&(b - whole)).unwrap_or(Ordering::Equal),
+        ord => ord,
     }
 }
 
